@@ -206,6 +206,16 @@ def run_history(job):
             elif kind == "driver-only":
                 rc, out = invoke(["--noexec_ninja"])
                 log.append(("driver-only", rc))
+            elif kind == "bad-source-invoke":
+                # a source whose file name carries no codepoints: the glyph-map step (a python step that writes through util.file_printer) raises.
+                # The build directory already holds that step's output from the runs before: the invocation must still exit non-zero
+                bad = src / "hut.svg"
+                bad.write_text(svg(9))
+                rc, out = invoke()
+                log.append(("bad-source-invoke", rc))
+                if rc == 0:
+                    fault_nonzero_ok = False
+                bad.unlink()
         rc, out = invoke()
         log.append(("final", rc))
         final_font = next(iter((d / "build").glob("Font.*tf")), None)
@@ -412,7 +422,7 @@ def gen_history(rng):
     n = rng.randint(2, 5)
     evs = []
     for _ in range(n):
-        k = rng.choice(["modify", "add", "remove", "rename-over", "option", "invoke", "invoke-fault", "invoke-fault-wrong", "driver-only"])
+        k = rng.choice(["modify", "add", "remove", "rename-over", "option", "invoke", "invoke-fault", "invoke-fault-wrong", "driver-only", "bad-source-invoke"])
         if k == "modify":
             evs.append((k, rng.randint(0, 2), rng.randint(1, 3)))
         elif k in ("add", "remove", "rename-over"):
@@ -438,6 +448,9 @@ def suite(ctx, res, n_random):
                     ("option", "bitmap_resolution", 128)], "cbdt"))
     hs.append((55, [("option", "output_file", "B.ttf"), ("option", "use_pngquant", False), ("invoke",), ("option", "output_file", "Font.ttf"),
                     ("option", "use_pngquant", True)], "sbix"))
+    # a python step raising while its previous output is still there (remove a source, then add one with a bad name)
+    hs.append((56, [("remove", 0), ("bad-source-invoke",)], "glyf_colr_1"))
+    hs.append((57, [("modify", 1, 2), ("bad-source-invoke",), ("add", 1)], "picosvg"))
     hs.append((52, [("invoke-fault", "zopflipng")], "cbdt"))
     hs.append((53, [("invoke-fault", "resvg"), ("invoke-fault", "zopflipng")], "sbix"))
     hs += [(100 + i, gen_history(ctx.rng), ctx.rng.choice(["glyf_colr_1", "picosvg"])) for i in range(n_random)]
